@@ -5,6 +5,7 @@ from .mm import RAW
 
 
 LONG_VARIANTS = 3
+LONG_PREFIXES = 3
 
 
 class TGen(Gen):
@@ -72,6 +73,10 @@ def alt_variants(mm, t, coords):
             # (hooks that sniff a prefix, quadratic shortcuts, truncation)
             for lab, sub in ev[1:LONG_VARIANTS + 1]:
                 out.append(("long130+" + lab, ("arr", [subs[0]] * 130 + [sub])))
+            # ... with other prefixes too (which element is "ambiguous" depends on inner alternatives)
+            for pi in range(1, min(LONG_PREFIXES, len(ev))):
+                for li in [x for x in range(min(len(ev), LONG_VARIANTS + 1)) if x != pi][:2]:
+                    out.append(("long130:%s+%s" % (ev[pi][0], ev[li][0]), ("arr", [subs[pi]] * 130 + [subs[li]])))
         return out
     if k == "or":
         for i, it in enumerate(rt["items"]):
@@ -113,6 +118,30 @@ def forced_cases(mm, root, seed, containers=(0.0, 0.6)):
                     g = TGen(mm, rng_for(seed, "container", root.label, sidx, ai, lab, ci), maxdepth=2, p_opt=popt)
                     tree = g.gen(root.t, 0, list(steps) + [("tree", ("or", ai, sub))])
                     yield ("%s alt%d %s c%d" % (site_id, ai, lab, ci), tree, site_id, ai)
+        # two ARRAY alternatives in one union (e.g. SymbolInformation[] | WorkspaceSymbol[]): a long prefix of
+        # elements that are valid for BOTH element types, then one element valid only for alternative j -
+        # the whole array is a value of alternative j alone, decided by its last element
+        arr_alts = []
+        for ai, alt in enumerate(ort["items"]):
+            ra = mm.resolve_alias(alt)
+            if ra["kind"] == "array":
+                arr_alts.append((ai, ra["element"]))
+        if len(arr_alts) >= 2:
+            evs = {ai: _elem_variants(mm, et, (seed, root.label, sidx, ai, "x")) for ai, et in arr_alts}
+            for ai, eti in arr_alts:
+                for aj, etj in arr_alts:
+                    if ai == aj:
+                        continue
+                    both = [(lab, sub) for lab, sub in evs[ai] + evs[aj] if mm.valid(to_json(sub), eti) and mm.valid(to_json(sub), etj)]
+                    only_j = [(lab, sub) for lab, sub in evs[aj] if not mm.valid(to_json(sub), eti)]
+                    for (la, a) in both[:2]:
+                        for (lb, b) in only_j[:3]:
+                            arr = ("arr", [a] * 130 + [b])
+                            if not mm.valid(to_json(arr), ort["items"][aj]) or mm.valid(to_json(arr), ort["items"][ai]):
+                                continue
+                            g = TGen(mm, rng_for(seed, "xl", root.label, sidx, ai, aj, la, lb), maxdepth=2, p_opt=0.0)
+                            tree = g.gen(root.t, 0, list(steps) + [("tree", ("or", aj, arr))])
+                            yield ("%s alt%d long130x:%s(alt%d)+%s" % (site_id, aj, la, ai, lb), tree, site_id, aj)
         # hetero arrays when the union is an array element
         if steps and steps[-1][0] == "elem":
             subs = []
